@@ -61,6 +61,8 @@ type Cfg struct {
 	AdMX     bool      `json:"adMX"`
 	DNS      string    `json:"dns"`
 	MX       []MXFacts `json:"mx"`
+	// the resolver list of the DNSSEC-aware stub resolver (resolvers_test.go); absent = one loopback resolver
+	Res []ResFacts `json:"res"`
 }
 
 type Msg struct {
@@ -76,6 +78,16 @@ type Msg struct {
 	// the message has an earlier recipient in another domain (other.invalid) whose MX is fully
 	// authenticated but does not offer the REQUIRETLS extension
 	Pre bool `json:"pre"`
+	// the message has an earlier recipient in another domain whose MX lookup fails while its MTA-STS
+	// lookup is unanswered (stsgate_test.go): "" | no | none | testing | match
+	Late string `json:"late"`
+}
+
+func lateOf(m Msg) string {
+	if m.Late == "" {
+		return "no"
+	}
+	return m.Late
 }
 
 type Behaviour struct {
@@ -134,7 +146,9 @@ type world struct {
 	net     *scripted.SMTPNet
 	servers []*scripted.SMTPServer
 	dns     *scripted.DNSServer
+	dnsStop func()
 	gate    *dnsGate
+	sts     *stsGate
 	msgs    []Msg
 	tgt     *remote.Target
 }
@@ -149,14 +163,17 @@ func (w *world) close() {
 	if w.gate != nil {
 		w.gate.reset()
 	}
-	if w.dns != nil {
-		w.dns.Close()
+	if w.sts != nil {
+		w.sts.reset()
+	}
+	if w.dnsStop != nil {
+		w.dnsStop()
 	}
 }
 
 func buildWorld(t *testing.T, c Cfg, tr *vtrace.Tracer) *world {
 	cs := theCerts(t)
-	w := &world{net: scripted.NewSMTPNet()}
+	w := &world{net: scripted.NewSMTPNet(), sts: newStsGate()}
 	zones := map[string]scripted.DNSZone{}
 	domZone := scripted.DNSZone{AD: c.AdMX}
 	if c.DNS == "servfail" {
@@ -295,21 +312,23 @@ func buildWorld(t *testing.T, c Cfg, tr *vtrace.Tracer) *world {
 		zones["_25._tcp."+otherMX+"."] = scripted.DNSZone{AD: true}
 	}
 
-	dnsSrv, err := scripted.NewDNSServer(zones)
+	// the earlier recipient domain of "late" messages: its MX lookup fails
+	zones[lateDomainSF+"."] = scripted.DNSZone{ServFail: true}
+
+	rw, err := newResolverWorld(zones, c.Res)
 	if err != nil {
 		t.Fatal(err)
 	}
+	dnsSrv := rw.base
 	w.dns = dnsSrv
+	w.dnsStop = rw.close
 	slow := map[int]bool{}
 	for idx, f := range c.MX {
 		slow[idx+1] = f.Slow
 	}
 	w.gate = newDNSGate(slow)
 	dnsSrv.Gate = w.gate.gate
-	ext, err := remote.VerifRemoteExtResolver(dnsSrv.Host(), dnsSrv.Port())
-	if err != nil {
-		t.Fatal(err)
-	}
+	ext := rw.ext
 
 	nolog := log.Logger{Out: log.NopOutput{}}
 	if os.Getenv("VERIF_DEBUG") != "" {
@@ -320,7 +339,22 @@ func buildWorld(t *testing.T, c Cfg, tr *vtrace.Tracer) *world {
 		switch {
 		case name == "mtasts" && has(c.Pols, "mtasts"):
 			sts := c.Sts
-			pols = append(pols, remote.VerifRemoteMTASTSPolicy(func(_ context.Context, d string) (*mtasts.Policy, error) {
+			pols = append(pols, &stsPolicyWrap{gate: w.sts, tr: tr, inner: remote.VerifRemoteMTASTSPolicy(func(ctx context.Context, d string) (*mtasts.Policy, error) {
+				w.sts.wait(ctx, d)
+				if isLateDomain(d) {
+					// what the earlier recipient domain of a "late" message publishes
+					switch w.sts.lateKind() {
+					case "testing":
+						return &mtasts.Policy{Mode: mtasts.ModeTesting, MX: []string{"mx." + d}, MaxAge: 3600}, nil
+					case "match": // an enforce-mode policy listing the MX candidates of the other domain
+						var all []string
+						for i := range c.MX {
+							all = append(all, mxHost(i+1))
+						}
+						return &mtasts.Policy{Mode: mtasts.ModeEnforce, MX: all, MaxAge: 3600}, nil
+					}
+					return nil, errors.New("no MTA-STS policy published")
+				}
 				if d == otherDomain {
 					return &mtasts.Policy{Mode: mtasts.ModeTesting, MX: []string{otherMX}, MaxAge: 3600}, nil
 				}
@@ -339,7 +373,7 @@ func buildWorld(t *testing.T, c Cfg, tr *vtrace.Tracer) *world {
 					mx = []string{"nomatch." + domain}
 				}
 				return &mtasts.Policy{Mode: mode, MX: mx, MaxAge: 3600}, nil
-			}, nolog))
+			}, nolog)})
 		case name == "dane" && has(c.Pols, "dane"):
 			pols = append(pols, &danePolicyWrap{inner: remote.VerifRemoteDANEPolicy(ext, nolog), gate: w.gate, tr: tr})
 		case name == "dnssec" && has(c.Pols, "dnssec"):
@@ -377,7 +411,7 @@ func cfgEvent(c Cfg) vtrace.Ev {
 	}
 	pols := append([]string{}, c.Pols...)
 	return vtrace.Ev{"pols": pols, "minTLS": c.MinTLS, "minMX": c.MinMX, "override": c.Override,
-		"sts": c.Sts, "adMX": c.AdMX, "dns": c.DNS, "mx": mx}
+		"sts": c.Sts, "adMX": c.AdMX, "dns": c.DNS, "mx": mx, "res": resEvent(c.Res)}
 }
 
 func quitOf(f MXFacts) string {
@@ -427,8 +461,9 @@ func runBehaviour(t *testing.T, b Behaviour, out *bufio.Writer) {
 			Quarantine:         m.Quar,
 		}
 		w.gate.reset()
+		w.sts.startMsg(lateOf(m))
 		tr.Emit("Msg", vtrace.Ev{"m": i + 1, "reqtls": m.ReqTLS, "tlsno": m.TLSNo, "quar": m.Quar,
-			"mailfail": m.MailFail, "qlate": m.QLate, "na": m.NA, "pre": m.Pre})
+			"mailfail": m.MailFail, "qlate": m.QLate, "na": m.NA, "pre": m.Pre, "late": lateOf(m)})
 		d, err := w.tgt.Start(ctx, meta, from)
 		if err != nil {
 			t.Fatalf("behaviour %d: Start failed: %v", b.ID, err)
@@ -437,7 +472,16 @@ func runBehaviour(t *testing.T, b Behaviour, out *bufio.Writer) {
 			perr := d.AddRcpt(ctx, "rcpt@"+otherDomain, smtp.RcptOptions{})
 			tr.Emit("Pre", vtrace.Ev{"res": class(perr), "err": errText(perr)})
 		}
+		if lateOf(m) != "no" {
+			// the earlier recipient domain whose MX lookup fails; its MTA-STS lookup stays unanswered
+			lerr := d.AddRcpt(ctx, "rcpt@"+lateDomainFor(m.Late), smtp.RcptOptions{})
+			tr.Emit("LatePre", vtrace.Ev{"res": class(lerr), "err": errText(lerr)})
+			if lerr == nil && !m.Quar {
+				t.Fatalf("behaviour %d: the recipient in %s was accepted", b.ID, lateDomainFor(m.Late))
+			}
+		}
 		err = d.AddRcpt(ctx, "rcpt@"+domain, smtp.RcptOptions{})
+		w.sts.drain()
 		if serr := w.net.Settle(); serr != nil {
 			t.Fatalf("HARNESS-TIMEOUT behaviour %d: %v", b.ID, serr)
 		}
@@ -478,7 +522,7 @@ func runBehaviour(t *testing.T, b Behaviour, out *bufio.Writer) {
 		t.Fatalf("HARNESS-TIMEOUT behaviour %d: %v", b.ID, err)
 	}
 	tr.Emit("End", vtrace.Ev{})
-	if w.net.TimedOut || w.gate.TimedOut() || time.Since(start) > harnessBudget || ctx.Err() != nil {
+	if w.net.TimedOut || w.gate.TimedOut() || w.sts.TimedOut() || time.Since(start) > harnessBudget || ctx.Err() != nil {
 		t.Fatalf("HARNESS-TIMEOUT behaviour %d took %v", b.ID, time.Since(start))
 	}
 }
